@@ -82,7 +82,32 @@ class Wrapf(util.WrapperMixin):
 
 #        for info in self.file_list:
 #            self.write_module(info)
+        self.order_ffiles()
         self.write_c_helper()
+
+    def order_ffiles(self):
+        """List each written module after the written modules it uses.
+
+        The modules of nested namespaces are written before the module
+        of their parent; a function in a namespace may still use a class
+        of the parent's module.  The order is otherwise unchanged.
+        """
+        written = set(module for _path, module, _uses in self.file_list)
+        pending = self.file_list[:]
+        done = set()
+        ordered = []
+        while pending:
+            for item in pending:
+                if all(use in done or use == item[1] or use not in written
+                       for use in item[2]):
+                    break
+            else:
+                item = pending[0]  # circular, keep the order of writing
+            pending.remove(item)
+            done.add(item[1])
+            ordered.append(item[0])
+        others = [name for name in self.config.ffiles if name not in ordered]
+        self.config.ffiles[:] = others + ordered
 
     def wrap_namespace(self, node, fileinfo, top=False):
         """Wrap a library or namespace.
@@ -2190,6 +2215,16 @@ rv = .false.
 
         self.config.ffiles.append(
             os.path.join(self.config.c_fortran_dir, fname)
+        )
+        uses = set()
+        for line in output:
+            if isinstance(line, str):
+                words = line.replace(",", " ").split()
+                if len(words) > 1 and words[0].lower() == "use":
+                    uses.add(words[1].lower())
+        self.file_list.append(
+            (os.path.join(self.config.c_fortran_dir, fname),
+             module_name.lower(), uses)
         )
         self.write_output_file(fname, self.config.c_fortran_dir, output)
 
